@@ -111,6 +111,15 @@ func (interp *Interpreter) gta(root *node, rpath, importPath, pkgName string) ([
 
 		case defineXStmt:
 			err = compDefineX(sc, n)
+			if err != nil {
+				return false
+			}
+			// As for defineStmt, the variables are in the global frame, and initialized by n.
+			for _, c := range n.child[:n.nleft] {
+				if sym := sc.sym[c.ident]; sym != nil && !isBlank(c) {
+					sym.global, sym.node = true, n
+				}
+			}
 
 		case valueSpec:
 			l := len(n.child) - 1
